@@ -248,7 +248,7 @@ harness('census', 'engines/fault/census.cpp', 'gcc-asan', libs='-lrapidcheck -lc
 reg(Prop('C20', 'exploration', [
     Sub('rand', 'census', shards=(12, 16), cases=(250, 3000), maxsize=(100, 100), env={'VERIF_SUB': 'rand'}, timeout=(900, 3600)),
     Sub('cycles', 'census', shards=(4, 8), cases=(1, 1), env={'VERIF_SUB': 'cycles'}, timeout=(900, 3600)),
-    Sub('lsan', 'census', shards=(8, 16), cases=(250, 2500), maxsize=(100, 100), env={'VERIF_SUB': 'rand', 'VERIF_LSAN': 1, 'ASAN_OPTIONS': 'detect_leaks=1:leak_check_at_exit=0:abort_on_error=0:allocator_may_return_null=1:handle_abort=0:detect_stack_use_after_return=0'}, timeout=(900, 3600)),
+    Sub('lsan', 'census', shards=(8, 16), cases=(250, 2500), maxsize=(100, 100), env={'VERIF_SUB': 'rand', 'VERIF_LSAN': 1, 'ASAN_OPTIONS': 'detect_leaks=1:leak_check_at_exit=0:abort_on_error=0:allocator_may_return_null=1:handle_abort=0:detect_stack_use_after_return=0:malloc_context_size=6'}, timeout=(900, 3600)),
     Sub('fdledger_sm', 'netx', shards=(8, 8), cases=(600, 6000), maxsize=(60, 100), env={'VERIF_SUB': 'rand', 'VERIF_NETX_GEN': 'C10', 'VERIF_LEDGER_ONLY': 1}, timeout=(900, 3600)),
     Sub('fdledger_io', 'netx', shards=(4, 8), cases=(40, 400), maxsize=(60, 100), env={'VERIF_SUB': 'rand', 'VERIF_NETX_GEN': 'C09', 'VERIF_LEDGER_ONLY': 1}, timeout=(900, 3600)),
 ], rule='lifecycle histories: sequences of up to ~14 self-contained episodes over 17 object kinds (trees, list+hash table, INI incl. missing file, hashes, errors, directory iterator incl. missing path, TCP pairs incl. refused connect / timed-out accept / timed-out receive / I/O after close, '
